@@ -1,6 +1,9 @@
 package ring
 
-import "math/big"
+import (
+	"math/big"
+	"math/bits"
+)
 
 // C01-5 (stage cut): the transform functions are executed once from SSA; every time control reaches the head of
 // the outer stage loop the harness (a) reads off, from the symbolic contents of the working vector, the concrete
@@ -123,6 +126,49 @@ func vStagedTransform(id, fnName string, loopIdx, n int, q uint64, run func(in, 
 	}
 	vUnstub("MRedLazy")
 	vCover(id + "-reached")
+	// end-to-end witness for a refuted stage lemma (native replay only): the real transform on a deterministic
+	// battery of inputs, compared with the definition matrix and the documented output range
+	vSearch(id, 1<<14, func(rnd func() uint64) bool {
+		a, b := make([]uint64, n), make([]uint64, n)
+		mode := rnd() % 4
+		for i := range a {
+			switch r := rnd(); {
+			case mode == 0 || r%8 < 3:
+				a[i] = rnd() % q
+			case r%8 < 6:
+				a[i] = q - 1 - (rnd()%4)*(rnd()%4)
+			default:
+				a[i] = rnd() % 4
+			}
+		}
+		c := make([]uint64, n)
+		copy(c, a)
+		if inPlace {
+			run(c, c)
+			b = c
+		} else {
+			run(c, b)
+		}
+		for j := 0; j < n; j++ {
+			var acc uint64
+			for i := 0; i < n; i++ {
+				hi, lo := bits.Mul64(def[j][i], a[i])
+				_, r := bits.Div64(hi, lo, q)
+				if acc += r; acc >= q {
+					acc -= q
+				}
+			}
+			if b[j] > docBound || b[j]%q != acc {
+				vObserve("search-n", uint64(n))
+				vObserve("search-q", q)
+				vObserve("search-slot", uint64(j))
+				vObserve("search-got", b[j])
+				vObserve("search-want-mod-q", acc)
+				return true
+			}
+		}
+		return false
+	})
 }
 
 func vStagedNTTs(n int, q uint64) {
@@ -148,6 +194,70 @@ func VerifH_C01_NTTStages() {
 	for _, n := range sizes {
 		for _, q := range VerifSetup_NTTModuli(n, vTier()) {
 			vStagedNTTs(n, q)
+		}
+	}
+}
+
+// Conjugate-invariant transforms (Z[X+X^-1]): same stage-cut argument.  The definition matrix is the library's own
+// transform applied natively to the unit vectors: what is decided is that the transform IS that linear map modulo q for
+// EVERY input (no lane overflows or drops a reduction on particular data) with the documented output range.
+func VerifSetup_CISubRing(n int, q uint64) *SubRing {
+	r, err := NewRingConjugateInvariant(n, []uint64{q})
+	if err != nil {
+		panic(err)
+	}
+	return r.SubRings[0]
+}
+
+func VerifSetup_CIMatrix(n int, q uint64, inverse bool) [][]uint64 {
+	s := VerifSetup_CISubRing(n, q)
+	m := make([][]uint64, n)
+	for j := range m {
+		m[j] = make([]uint64, n)
+	}
+	for i := 0; i < n; i++ {
+		e, out := make([]uint64, n), make([]uint64, n)
+		e[i] = 1
+		if inverse {
+			s.INTT(e, out)
+		} else {
+			s.NTT(e, out)
+		}
+		for j := 0; j < n; j++ {
+			m[j][i] = out[j]
+		}
+	}
+	return m
+}
+
+func VerifSetup_CIModuli(n int, tier int) []uint64 {
+	var res []uint64
+	for _, q := range VerifSetup_Moduli(1) {
+		if (q-1)%uint64(4*n) == 0 {
+			res = append(res, q)
+		}
+	}
+	if len(res) > 2 && tier == 0 {
+		res = []uint64{res[0], res[len(res)-1]}
+	}
+	return res
+}
+
+func VerifH_C01_NTTStagesConjugateInvariant() {
+	vConfig("backend", "int")
+	for _, n := range []int{8, 16, 32} {
+		for _, q := range VerifSetup_CIModuli(n, vTier()) {
+			s := VerifSetup_CISubRing(n, q)
+			fwd := VerifSetup_CIMatrix(n, q, false)
+			inv := VerifSetup_CIMatrix(n, q, true)
+			fn, ifn := "nttConjugateInvariantLazyUnrolled16", "inttConjugateInvariantLazyUnrolled16"
+			if n < MinimumRingDegreeForLoopUnrolledNTT {
+				fn, ifn = "nttConjugateInvariantLazy", "inttConjugateInvariantLazy"
+			}
+			vStagedTransform("CI-NTTLazy", fn, 1, n, q, func(a, b []uint64) { s.NTTLazy(a, b) }, 6*q-2, fwd, false)
+			vStagedTransform("CI-NTT", fn, 1, n, q, func(a, b []uint64) { s.NTT(a, b) }, q-1, fwd, false)
+			vStagedTransform("CI-INTTLazy", ifn, 1, n, q, func(a, b []uint64) { s.INTTLazy(a, b) }, 2*q-1, inv, false)
+			vStagedTransform("CI-INTT", ifn, 1, n, q, func(a, b []uint64) { s.INTT(a, b) }, q-1, inv, false)
 		}
 	}
 }
